@@ -29,6 +29,14 @@ def case(g, tier, ci):
     N = r.choice([2399, 2400, 2400, 2401, 2600]) if ci % 6 != 4 else r.choice([2399, 2400, 1000])
     amps = {ch: r.choice([0.5, 1, 2, 4.5, 1 + 2.0 ** -12]) for ch in chans}      # (one with digits below a millivolt)
     boundary = r.random() < 0.45 or ci % 6 == 4
+    force_other = ci % 4 == 2 and ci % 6 != 4
+    if force_other:
+        # at least two channels with different ranges, and a level that fits ANOTHER channel's range (every waveform is
+        # checked against its own channel's amplitude: seeded C15-m2, C15-m5)
+        if len(chans) < 2:
+            chans = r.sample([3, 1, 2, "B"], r.randint(2, 3))
+        amps = dict(zip(chans, r.sample([0.5, 1, 2, 4.5], len(chans))))
+        boundary = True
     ops = [{"op": "sq.new", "id": "s"}, {"op": "sq.setSR", "id": "s", "v": enc(SR)}]
     if r.random() < 0.5:
         ops.append({"op": "sq.setName", "id": "s", "name": r.choice(["myseq", "x", ""])})
@@ -47,6 +55,8 @@ def case(g, tier, ci):
                 other = [amps[c] for c in chans if c != ch]
                 if ci % 6 == 4:
                     lv = 0.0        # every channel of this case idles at 0 V (2399 points are too few all the same)
+                elif force_other and p == adding[0]:
+                    lv = r.choice(other) / 2 * r.choice([1, 0.75])
                 elif k < 0.4:
                     lv = a / 2 * r.choice([0.5, 0.0])
                 elif k < 0.65:
